@@ -615,7 +615,9 @@ class RefsContainer:
         for src in self.allkeys():
             try:
                 ref_value = self.read_ref(src)
-                assert ref_value is not None
+                if ref_value is None:
+                    # Deleted by another process since it was listed.
+                    continue
                 dst = parse_symref_value(ref_value)
             except ValueError:
                 pass
